@@ -23,6 +23,18 @@ def run(ctx):
     scs += _node.generated(ctx, "events") + _node.generated(ctx, "close")
     runs = _node.play(ctx, scs, binary=race, timeout=180, env_extra={"GORACE": "exitcode=0 halt_on_error=0 history_size=3"},
                       workers=max(2, vf.NCPU // 2))
+    # application goroutines: a pool of four workers editing, fixing (Node.FixFrame on one shared node, unkeyed and keyed)
+    # and forwarding frames of different message types at the same time
+    from checks import _stream
+    defs = ctx.path("defs.json")
+    ctx.run_mvh(["defs", "-out", defs])
+    rc_g, out_g = ctx.tlc("Gen_Route", env={"DEFS": defs, "DIALECT": defs + ".all.json", "VECMOD": 40, "VECOFF": ctx.seed % 40},
+                          tag="gen:route", timeout=1800, count=False)
+    if _stream.parse_vec_lines(out_g, ctx.path("routevec.ndjson")) == 0:
+        raise vf.Inconclusive("Gen_Route produced no vectors:\n" + vf.tail(out_g, 30))
+    pr = ctx.run_mvh(["route", "-aux", "poolonly", "-vectors", ctx.path("routevec.ndjson"), "-out", ctx.path("pool.ndjson"), "-seed", ctx.seed,
+                      "-tier", ctx.tier], binary=race, env_extra={"GORACE": "exitcode=0 halt_on_error=0 history_size=3"}, timeout=900)
+    runs = list(runs) + [({"name": "fixframe_worker_pool", "conf": {}, "endpoints": [], "steps": []}, None, pr.returncode, pr.stderr)]
     reports = 0
     for (sc, tp, rc, err) in runs:
         if rc not in (0,):
